@@ -299,7 +299,9 @@ func New(seed uint64, c NodeConf) (*Puppet, error) {
 }
 
 // NewOn creates the real node on an existing network.
-func NewOn(n *simnet.Network, seed uint64, c NodeConf) (*Puppet, error) { return NewOnPre(n, seed, c, nil) }
+func NewOn(n *simnet.Network, seed uint64, c NodeConf) (*Puppet, error) {
+	return NewOnPre(n, seed, c, nil)
+}
 
 // NewOnPre is NewOn with a hook that runs after the endpoint and the recorder exist and before Create is called (the
 // listeners of a node are running while Create is still asking its delegate for the metadata, so traffic can arrive
